@@ -439,8 +439,18 @@ func harnesses(r *fw.Run) []fw.HarnessSpec {
 				check("WriteInt", rb.FromInt(ival, w), func(bs *boc.BitString) error { return bs.WriteInt(ival.Int64(), w) })
 			}
 			if w >= 1 {
+				// the numbers belong to the caller: a write reads them, it does not change them (they are written again below)
+				uKeep, iKeep := new(big.Int).Set(uval), new(big.Int).Set(ival)
 				check("WriteBigUint", rb.FromUint(uval, w), func(bs *boc.BitString) error { return bs.WriteBigUint(uval, w) })
 				check("WriteBigInt", rb.FromInt(ival, w), func(bs *boc.BitString) error { return bs.WriteBigInt(ival, w) })
+				if uval.Cmp(uKeep) != 0 {
+					c.Fail("WriteBigUint:argument-changed", "WriteBigUint(%v, %d) left its argument as %v", uKeep, w, uval)
+					uval.Set(uKeep)
+				}
+				if ival.Cmp(iKeep) != 0 {
+					c.Fail("WriteBigInt:argument-changed", "WriteBigInt(%v, %d) left its argument as %v", iKeep, w, ival)
+					ival.Set(iKeep)
+				}
 			}
 			if w%8 == 0 && w/8 <= 16 {
 				data := rb.Pattern(seed+vi, w).Bytes()
